@@ -269,6 +269,45 @@ func e2eCLI(model map[string]interface{}) (bool, string) {
 			}
 		}
 	}
+	// a write that fails half-way (file size limit below the size of the output): the run fails,
+	// and the older output is still there, whole; nothing else is left behind
+	{
+		dir := filepath.Join(tmp, "torn")
+		var fields strings.Builder
+		for i := 0; i < 300; i++ {
+			fmt.Fprintf(&fields, "\tF%03d int\n", i)
+		}
+		writeModule(dir, "//go:build convergen\n\npackage e2e\n\ntype Convergen interface {\n\tBigToBig(*Big) *Big2\n}\n")
+		os.WriteFile(filepath.Join(dir, "big.go"), []byte("package e2e\n\ntype Big struct {\n"+fields.String()+"}\n\ntype Big2 struct {\n"+fields.String()+"}\n"), 0644)
+		good := exec.Command(bin, "setup.go")
+		good.Dir = dir
+		good.Env = goEnv()
+		if out, err := good.CombinedOutput(); err == nil {
+			before := snapshot(dir)
+			sh := exec.Command("sh", "-c", "ulimit -f 4; exec \"$0\" setup.go", bin)
+			sh.Dir = dir
+			sh.Env = goEnv()
+			out2, err2 := sh.CombinedOutput()
+			after := snapshot(dir)
+			fmt.Fprintf(&log, "$ (ulimit -f 4; convergen setup.go) -> failed=%v\n", err2 != nil)
+			if err2 == nil {
+				fmt.Fprintf(&log, "(the size limit did not make the write fail here: scenario skipped) %s\n", clip(string(out2), 100))
+			} else {
+				for f, h := range after {
+					if before[f] != h {
+						dev("a run whose write failed half-way changed %s (%s)", f, clip(string(out2), 150))
+					}
+				}
+				for f := range before {
+					if _, ok := after[f]; !ok {
+						dev("a run whose write failed half-way deleted %s", f)
+					}
+				}
+			}
+		} else {
+			fmt.Fprintf(&log, "(torn-write scenario: the preparing run failed: %s)\n", clip(string(out), 150))
+		}
+	}
 	return deviations > 0, log.String()
 }
 
@@ -439,7 +478,14 @@ func renderLayout(m map[string]interface{}) string {
 	}
 	la, ra := mint(m, "A.lbrace"), mint(m, "A.rbrace")
 	// (the line break in front keeps a preceding comment a group of its own instead of the interface's doc comment)
-	intf("\ntype Convergen interface ", la, ra, truthy(m, "A.hasMethod"))
+	if truthy(m, "commentInHeadOfA") {
+		// "type", a comment in the head of the declaration, then " Convergen interface " before the brace
+		put(mint(m, "A.type")-1, "\ntype ")
+		comment(mint(m, "head.pos"), 1, "head")
+		intf(" Convergen interface ", la, ra, truthy(m, "A.hasMethod"))
+	} else {
+		intf("\ntype Convergen interface ", la, ra, truthy(m, "A.hasMethod"))
+	}
 	if truthy(m, "commentInsideA") {
 		comment(mint(m, "inside.pos"), 1, "in")
 	}
